@@ -294,6 +294,20 @@ pub fn pair(args: &Args) {
         // half of the aligned runs have a quiet link with exactly one scripted loss (the first, the second or the last
         // segment of the first window), so that duplicate ACKs arrive in order and fast retransmit is exercised
         BULK_WRITE.with(|c| c.set(aligned));
+        // blackout runs: a long total outage (far beyond any retransmission back-off) in the middle of the transfer, then a
+        // reliable link: the transfer has to pick up again within the idle horizon of the world
+        let blackout = !aligned && rng.chance(8);
+        if blackout {
+            let b0 = rng.range(50, 3000) as i64;
+            let d = *rng.pick(&[100_000i64, 1_000_000, 10_000_000]);
+            BLACKOUT.with(|c| c.set((b0, b0 + d)));
+            ca.keep_alive = None;
+            ca.timeout = None;
+            cb.keep_alive = None;
+            cb.timeout = None;
+        } else {
+            BLACKOUT.with(|c| c.set((0, 0)));
+        }
         let scripted_loss = aligned && rng.chance(50);
         DROP_NTH_DATA.with(|c| c.set(if scripted_loss { *rng.pick(&[1i64, 1, 2, kseg as i64]) } else { 0 }));
         let mut eps = [Ep::new(0, ca.clone(), Instant::from_millis(0)), Ep::new(1, cb.clone(), Instant::from_millis(0))];
@@ -515,6 +529,8 @@ pub fn pair(args: &Args) {
 thread_local! {
     /// scripted loss of the pair world: the n-th data-carrying segment from endpoint 0 is dropped once (0: none)
     static DROP_NTH_DATA: std::cell::Cell<i64> = const { std::cell::Cell::new(0) };
+    /// blackout runs: every frame emitted in [start, end) is lost, in both directions (then the link is reliable)
+    static BLACKOUT: std::cell::Cell<(i64, i64)> = const { std::cell::Cell::new((0, 0)) };
     /// aligned runs: endpoint 0 writes its whole stream with one call and closes at once
     static BULK_WRITE: std::cell::Cell<bool> = const { std::cell::Cell::new(false) };
 }
@@ -525,6 +541,11 @@ fn emit_frames(rng: &mut Rng, flight: &mut Vec<InFlight>, next_id: &mut u64, las
     for f in out {
         let id = *next_id;
         *next_id += 1;
+        let (b0, b1) = BLACKOUT.with(|c| c.get());
+        if now >= b0 && now < b1 {
+            t.ev(json!({"ev":"net","fid":id,"fate":"drop","blackout":true}));
+            continue;
+        }
         if from == 0 && DROP_NTH_DATA.with(|c| c.get()) > 0 {
             let has_data = matches!(parse_ip(&f), Some(IpPkt { l4: L4::Tcp(ref seg), .. }) if !seg.payload.is_empty());
             if has_data {
